@@ -357,6 +357,9 @@ func c05GenRun(r *rand.Rand, emit vutil.Emit, n int) {
 	}
 	scn = append(scn, [3]string{"safebrowsing", "access_set", "blockhost"}, [3]string{"parental", "dns_config", "blockhost"})
 	// statistics readers and writers against continuous unit rotation
+	// reload bursts during a gated refresh download (about 6 s: the first
+	// refresh of the updates loop happens 5 s after the start)
+	scn = append(scn, [3]string{"plain", "enable_burst", "gated"})
 	scn = append(scn, [3]string{"mixed", "stats_read", "rotate"}, [3]string{"plain", "stats_config", "rotate"},
 		[3]string{"mixed", "mixed", "rotate"})
 	for i := 0; i < n; i++ {
@@ -547,10 +550,13 @@ func c05StartUpstream(t *testing.T) (addr string) {
 	srv := &dns.Server{PacketConn: pc, Handler: dns.HandlerFunc(func(w dns.ResponseWriter, req *dns.Msg) {
 		resp := (&dns.Msg{}).SetReply(req)
 		if len(req.Question) == 1 && req.Question[0].Qtype == dns.TypeA {
-			resp.Answer = append(resp.Answer, &dns.A{
-				Hdr: dns.RR_Header{Name: req.Question[0].Name, Rrtype: dns.TypeA, Class: dns.ClassINET, Ttl: 1},
-				A:   net.IP{192, 0, 2, 1},
-			})
+			// several records: every one of them is checked by the response filter
+			for k := byte(1); k <= 6; k++ {
+				resp.Answer = append(resp.Answer, &dns.A{
+					Hdr: dns.RR_Header{Name: req.Question[0].Name, Rrtype: dns.TypeA, Class: dns.ClassINET, Ttl: 1},
+					A:   net.IP{192, 0, 2, k},
+				})
+			}
 		}
 		_ = w.WriteMsg(resp)
 	})}
@@ -835,6 +841,10 @@ func (w *c05World) adminOp(kind string, i int, r *rand.Rand) {
 		if i%4 == 0 {
 			w.call("POST", "/control/stats_reset", "")
 		}
+	case "enable_burst":
+		// the other admin goroutines of the burst scenario: readers of the
+		// filter configuration
+		w.call("GET", "/control/filtering/status", "")
 	case "stats_reset":
 		w.call("POST", "/control/stats_reset", "")
 	case "stats_read":
@@ -848,6 +858,54 @@ func (w *c05World) adminOp(kind string, i int, r *rand.Rand) {
 		w.call("POST", "/control/dns_config", fmt.Sprintf(`{"dnssec_enabled":%v,"disable_ipv6":%v,"blocking_mode":"default"}`, on, !on))
 	default:
 		panic("c05: unknown admin op " + kind)
+	}
+}
+
+// enableBurst waits until the periodic refresh of the updates loop is
+// downloading the gated list, makes batches of concurrent EnableFilters(true)
+// calls (what set_rules, add_url, remove_url, set_url and filtering/config end
+// with), then lets the download finish and waits for every reload to return.
+func (w *c05World) enableBurst(ops *atomic.Int64) {
+	select {
+	case <-w.entered:
+	case <-time.After(12 * time.Second):
+		panic("c05: the periodic refresh has not started")
+	}
+	var all sync.WaitGroup
+	for b := 0; b < 100; b++ {
+		start := make(chan struct{})
+		var batch sync.WaitGroup
+		for k := 0; k < 16; k++ {
+			batch.Add(1)
+			all.Add(1)
+			go func() {
+				defer all.Done()
+				defer batch.Done()
+				<-start
+				w.flt.EnableFilters(true)
+				ops.Add(1)
+			}()
+		}
+		close(start)
+		done := make(chan struct{})
+		go func() { batch.Wait(); close(done) }()
+		stuck := false
+		select {
+		case <-done:
+		case <-time.After(500 * time.Millisecond):
+			stuck = true
+		}
+		if stuck {
+			break
+		}
+	}
+	close(w.release)
+	all.Wait()
+	// the refresh must be able to store its result
+	for i := 0; i < 20; i++ {
+		w.call("GET", "/control/filtering/status", "")
+		ops.Add(1)
+		time.Sleep(10 * time.Millisecond)
 	}
 }
 
@@ -878,6 +936,17 @@ func TestVerifC05Child(t *testing.T) {
 	var served, malformed, adminOps atomic.Int64
 	var inflight sync.Map // goroutine id -> what it is doing
 	stop := make(chan struct{})
+	// enable_burst (gated wiring): queries go on until the burst is over
+	burst := op == "enable_burst"
+	burstDone := make(chan struct{})
+	burstOver := func() bool {
+		select {
+		case <-burstDone:
+			return true
+		default:
+			return false
+		}
+	}
 	var dnsWG, adminWG sync.WaitGroup
 	for g := 0; g < nDNS; g++ {
 		dnsWG.Add(1)
@@ -890,7 +959,7 @@ func TestVerifC05Child(t *testing.T) {
 			if g%3 == 2 {
 				cl.Net, addr = "tcp", w.addrTCP
 			}
-			for i := 0; i < nQ; i++ {
+			for i := 0; i < nQ || (burst && !burstOver() && i < 200000); i++ {
 				name := names[r.IntN(len(names))]
 				req := (&dns.Msg{}).SetQuestion(name, dns.TypeA)
 				inflight.Store(g, "query "+name)
@@ -913,6 +982,14 @@ func TestVerifC05Child(t *testing.T) {
 		go func(g int) {
 			defer adminWG.Done()
 			r := rand.New(rand.NewPCG(uint64(seed), uint64(1000+g)))
+			if burst && g == 0 {
+				inflight.Store(1000+g, "admin enable_burst")
+				w.enableBurst(&adminOps)
+				close(burstDone)
+				inflight.Store(1000+g, "done")
+
+				return
+			}
 			for i := 0; ; i++ {
 				select {
 				case <-stop:
@@ -929,21 +1006,30 @@ func TestVerifC05Child(t *testing.T) {
 	}
 
 	finished := make(chan struct{})
+	var dnsFinished, adminFinished atomic.Bool
 	go func() {
 		dnsWG.Wait()
+		dnsFinished.Store(true)
 		close(stop)
 		adminWG.Wait()
+		adminFinished.Store(true)
 		close(finished)
 	}()
 	stalled := make(chan struct{})
 	go func() {
-		last, since := int64(-1), time.Now()
+		// two detectors: the DNS side and the admin side must each keep making
+		// progress for as long as they have work
+		lastD, lastA := int64(-1), int64(-1)
+		sinceD, sinceA := time.Now(), time.Now()
 		for {
 			time.Sleep(250 * time.Millisecond)
-			cur := served.Load() + adminOps.Load()
-			if cur != last {
-				last, since = cur, time.Now()
-			} else if time.Since(since) > 4*time.Second {
+			if d := served.Load(); d != lastD || dnsFinished.Load() {
+				lastD, sinceD = d, time.Now()
+			}
+			if a := adminOps.Load(); a != lastA || adminFinished.Load() {
+				lastA, sinceA = a, time.Now()
+			}
+			if time.Since(sinceD) > 4*time.Second || time.Since(sinceA) > 4*time.Second {
 				close(stalled)
 
 				return
@@ -953,8 +1039,8 @@ func TestVerifC05Child(t *testing.T) {
 	select {
 	case <-finished:
 	case <-stalled:
-		// watchdog: neither a query was answered nor an admin operation
-		// finished for 4 s
+		// watchdog: no query was answered, or no admin operation finished,
+		// for 4 s although there was work
 		var stuck []string
 		inflight.Range(func(k, v any) bool {
 			if v != "done" {
